@@ -198,10 +198,44 @@ fn d_ipfix_unknown_field_off() {
     kani::assume((l >= 1 && l <= 3) || l == 65535); // fixed or variable-length encoding
     let mut p = IPFixParser::default();
     p.templates.insert(256, Template { template_id: 256, field_count: 1, fields: vec![tf(n, IPFixField::from(n), l)], padding: vec![] });
-    let buf: [u8; 6] = kani::any();
+    let buf: [u8; 4] = kani::any();
     let r = Data::parse(&buf, &mut p, 256);
     assert!(r.is_err());
     kani::cover!(l == 65535 && buf[0] == 2);
+    core::mem::forget(r);
+    core::mem::forget(p);
+}
+
+/// D (small): one 2-byte field, 5-byte body: two records + 1 padding byte.
+#[kani::proof]
+#[kani::stub(core::fmt::write, no_fmt)]
+#[kani::stub(netflow_parser::variable_versions::data_number::FieldValue::from_field_type, unsigned_kernel_model)]
+fn d_ipfix_two_records() {
+    const N: usize = 5;
+    let mut p = IPFixParser::default();
+    p.templates.insert(256, Template {
+        template_id: 256,
+        field_count: 1,
+        fields: vec![tf(7, IPFixField::SourceTransportPort, 2)],
+        padding: vec![],
+    });
+    let buf: [u8; N] = kani::any();
+    let r = Data::parse(&buf, &mut p, 256);
+    match &r {
+        Ok((rem, d)) => {
+            assert!(rem.is_empty());
+            assert!(d.fields.len() == 2);
+            assert!(d.padding.len() == 1 && d.padding[0] == buf[4]);
+            let mut i = 0;
+            while i < 2 {
+                let (t, v) = d.fields[i].get(&0).unwrap();
+                assert!(*t == IPFixField::SourceTransportPort);
+                assert!(*v == FieldValue::DataNumber(DataNumber::U16(be16(&buf, 2 * i))));
+                i += 1;
+            }
+        }
+        Err(_) => assert!(false),
+    }
     core::mem::forget(r);
     core::mem::forget(p);
 }
